@@ -31,6 +31,7 @@ type C17Spec struct {
 	Corrupt    string `json:"corrupt,omitempty"`    // bitflip byte truncate prefix suffix empty
 	Pos        int    `json:"pos,omitempty"`        // where
 	Rename     bool   `json:"rename,omitempty"`     // the archive is served under another file name
+	RenameTo   string `json:"renameTo,omitempty"`   // "" = an unrelated name; "case" / "ext-case" = the listed name in another letter case
 	SwapProv   bool   `json:"swapProv,omitempty"`   // the .prov of another chart is served
 	Strategy   string `json:"strategy,omitempty"`   // always | ifpossible
 	SignerWho  string `json:"signerWho,omitempty"`  // signer | other: who actually signed
@@ -150,6 +151,12 @@ func ExecuteC17(t *testing.T, plan *Plan) *RunResult {
 	served := "mychart0-1.0.0.tgz"
 	if c.Rename {
 		served = "renamed-1.0.0.tgz"
+		switch c.RenameTo {
+		case "case":
+			served = "MyChart0-1.0.0.tgz"
+		case "ext-case":
+			served = "mychart0-1.0.0.TGZ"
+		}
 	}
 	var opErr error
 	var ver *provenance.Verification
@@ -215,7 +222,7 @@ func ExecuteC17(t *testing.T, plan *Plan) *RunResult {
 	violate := func(clause, cause, detail string) {
 		res.Violations = append(res.Violations, Violation{"C17", clause, "download-verify", cause, detail, 0})
 	}
-	cause := fmt.Sprintf("keyring=%s,target=%s:%s,rename=%v,swap=%v,signedBy=%s", c.Keyring, c.Target, c.Corrupt, c.Rename, c.SwapProv, who)
+	cause := fmt.Sprintf("keyring=%s,target=%s:%s,rename=%v%s,swap=%v,signedBy=%s", c.Keyring, c.Target, c.Corrupt, c.Rename, c.RenameTo, c.SwapProv, who)
 	res.Checks += 3
 	sum := sha256.Sum256(archive)
 	wantHash := "sha256:" + hex.EncodeToString(sum[:])
@@ -321,6 +328,7 @@ func genC17(seed, index uint64, tier string) *Plan {
 		c.Target = "prov"
 	case 3:
 		c.Rename = true
+		c.RenameTo = g.Pick("", "case", "ext-case")
 	case 4:
 		c.SwapProv = true
 	}
